@@ -8,6 +8,7 @@ def trigger(scr):
     return 'DE' in ops[i:] and any(o in ops[:i] for o in ('RK', 'PR', 'DS', 'DT'))
 
 def gen(rng):
+    if rng.random() < 0.1: return profiles.shrink_scenario(rng)
     scr = profiles.C18(rng)
     # decapsulate every re-encapsulation with every key, before and after a refresh
     n = sum(1 for l in scr if l.split(' ')[0] in ('EN', 'RC'))
